@@ -11,10 +11,11 @@
    re-create the 9.10.0 behaviour so that TLC exhibits each defect (vacuity guard):
      CropClamp   right_crop clamps at zero and slices with the clamped offset (text.py:965-981)
      StartClamp  stylize clamps a negative start at zero               (text.py:320-340)
-     CtorLen     the constructor takes its length after stripping      (text.py:139-148)      *)
+     CtorLen     the constructor takes its length after stripping      (text.py:139-148)
+     CropUpper   right_crop never moves its offset beyond the end (a negative amount) (text.py:973-987) *)
 EXTENDS TextOps
 
-CONSTANTS CropClamp, StartClamp, CtorLen, MCDepth
+CONSTANTS CropClamp, StartClamp, CtorLen, CropUpper, MCDepth
 VARIABLES sp, ch, op, depth
 vars == <<sp, ch, op, depth>>
 
@@ -60,10 +61,11 @@ SPad(s, n, c) == IF n = 0 THEN s ELSE [SSetPlain(s, Rep(c, n) \o s.plain \o Rep(
 \* right_crop (text.py:965-981)
 SRightCrop(s, n) ==
     LET raw  == Len(s.plain) - n
-        maxo == IF CropClamp THEN Max(0, raw) ELSE raw
+        maxo0 == IF CropClamp THEN Max(0, raw) ELSE raw
+        maxo == IF CropUpper THEN Min(Len(s.plain), maxo0) ELSE maxo0
         \* Python: plain[:-n] (9.10.0) gives "" for n = 0 and plain[:len-n] semantics otherwise
-        newplain == IF CropClamp THEN SubSeq(s.plain, 1, maxo)
-                    ELSE IF n = 0 THEN <<>> ELSE SubSeq(s.plain, 1, Max(0, raw))
+        newplain == IF CropClamp THEN SubSeq(s.plain, 1, Min(Len(s.plain), maxo))
+                    ELSE IF n = 0 THEN <<>> ELSE SubSeq(s.plain, 1, Min(Len(s.plain), Max(0, raw)))
     IN [s EXCEPT !.spans = Trim(@, maxo), !.plain = newplain, !.len = IF CropClamp THEN maxo ELSE s.len - n]
 
 SSetLength(s, n) == IF s.len = n THEN s
@@ -128,7 +130,7 @@ StylizeA == \E k \in {1, 3}, r \in {<<0, 1>>, <<1, 0>>, <<0 - 1, 0>>, <<0 - 5, 0
 PadA == \E n \in {0, 1}, kind \in {"l", "r", "b"} : On /\
            Both(CASE kind = "l" -> SPadLeft(sp, n, <<45, 1>>) [] kind = "r" -> SPadRight(sp, n, <<45, 1>>) [] OTHER -> SPad(sp, n, <<45, 1>>),
                 CASE kind = "l" -> PadLeft(ch, n, <<45, 1>>) [] kind = "r" -> PadRight(ch, n, <<45, 1>>) [] OTHER -> Pad(ch, n, <<45, 1>>), "pad")
-CropA == \E n \in {0, 1, 2, 9} : On /\ Both(SRightCrop(sp, n), RightCrop(ch, n), "right_crop")
+CropA == \E n \in {0, 1, 2, 9, 0 - 1, 0 - 3} : On /\ Both(SRightCrop(sp, n), RightCrop(ch, n), "right_crop")
 SetLengthA == \E n \in {0, 1, 4} : On /\ Both(SSetLength(sp, n), SetLength(ch, n), "set_length")
 TruncateA == \E w \in {1, 2}, o \in {"crop", "ellipsis"}, p \in BOOLEAN : On /\ Both(STruncate(sp, w, o, p), Truncate(ch, w, o, p), "truncate")
 
